@@ -465,7 +465,47 @@ def rule_clients(ctx):
                 kws = {k.arg: src_of(k.value) for k in c.keywords if k.arg}
                 stars = [src_of(k.value) for k in c.keywords if k.arg is None]
                 n += 1
+                # a local that is bound, arm by arm, to the record (with self._psi) or to a fork of it (with a copy)
+                iv = next((k.value for k in c.keywords if k.arg == "info"), None)
+                if isinstance(iv, ast.Name) and isinstance(c.func.value, ast.Name):
+                    rn, inn = c.func.value.id, iv.id
+                    paired_ok, seen_arm = True, False
+                    for iff in ast.walk(f.node):
+                        if not isinstance(iff, ast.If):
+                            continue
+                        for arm in (iff.body, iff.orelse):
+                            pb = [src_of(x.value) for s_ in arm for x in ast.walk(s_) if isinstance(x, ast.Assign) and any(isinstance(t, ast.Name) and t.id == rn for t in x.targets)]
+                            ib = [src_of(x.value).replace('"', "'") for s_ in arm for x in ast.walk(s_) if isinstance(x, ast.Assign) and any(isinstance(t, ast.Name) and t.id == inn for t in x.targets)]
+                            if not pb and not ib:
+                                continue
+                            seen_arm = True
+                            own_psi = bool(pb) and all(b == "self._psi" for b in pb)
+                            raw = bool(ib) and all(b == "self.gate_opts['info']" for b in ib)
+                            fork = bool(ib) and all(b in ("self.gate_opts['info'].copy()", "dict(self.gate_opts['info'])") for b in ib)
+                            if not ((own_psi and raw) or (pb and not own_psi and fork)):
+                                paired_ok = False
+                    if seen_arm:
+                        if paired_ok:
+                            r.ok(f"{f.qualname}:{src_of(c.func)}", sample={"client": f.qualname, "call": src_of(c.func), "record": "raw record with self._psi, forked record with the copy"})
+                        else:
+                            r.bad(Finding("record-clients", f.qualname,
+                                          f"{src_of(c.func)}(...) (line {c.lineno}): the record passed (`{inn}`) is not paired with the object it describes "
+                                          f"(raw record with self._psi, forked record with a copy)", where=where, operand=src_of(c.func) + ":pairing"))
+                        continue
                 if "gate_opts['info']" in kws.get("info", "").replace('"', "'") or any("gate_opts" in s for s in stars):
+                    # the simulator's record describes self._psi: it may only be handed to calls on that object
+                    recv = c.func.value
+                    recv_src = src_of(recv)
+                    binds = []
+                    if isinstance(recv, ast.Name):
+                        binds = [src_of(x.value) for x in ast.walk(f.node) if isinstance(x, ast.Assign) and any(isinstance(t, ast.Name) and t.id == recv.id for t in x.targets)]
+                    own = recv_src == "self._psi" or (binds and all(b == "self._psi" for b in binds))
+                    if not own:
+                        r.bad(Finding("record-clients", f.qualname,
+                                      f"hands the simulator's record self.gate_opts['info'] to {src_of(c.func)}(...) (line {c.lineno}) on `{recv_src}`, which can be "
+                                      f"a copy of the state ({[b for b in binds if b != 'self._psi'][:2]}): the record then no longer describes self._psi",
+                                      where=where, operand=src_of(c.func) + ":copy"))
+                        continue
                     r.ok(f"{f.qualname}:{src_of(c.func)}", sample={"client": f.qualname, "call": src_of(c.func), "record": kws.get("info") or stars})
                 else:
                     r.bad(Finding("record-clients", f.qualname,
